@@ -208,6 +208,7 @@ type pLifecycle struct {
 	reconfErr     int // 0 ok, 1 not live-reconfigurable, 2 other error
 	storeAtStop   []string
 	storeAtImport []string
+	yield         bool
 }
 
 func (l *pLifecycle) Start(_ context.Context, id string) error {
@@ -227,6 +228,9 @@ func (l *pLifecycle) Stop(context.Context, string, bool) error {
 }
 func (l *pLifecycle) StopAndWait(_ context.Context, id string) error {
 	l.calls = append(l.calls, "stopandwait")
+	if l.yield {
+		verifYield() // draining takes a while: other appliers get to run
+	}
 	if l.faulty {
 		l.stopErr = verifBool("stopFails")
 	}
@@ -296,15 +300,35 @@ func pConfig(tag string) config.Pipeline {
 		c1.Processors = []config.Processor{pProc("c", 0), pProc("a", v)}
 	}
 	cfg.Connectors = []config.Connector{c1}
-	if verifConcrete(verifChoice(tag+".twoConns", 2)) == 1 {
+	if verifParam("dlqShapes", 1) == 1 && verifConcrete(verifChoice(tag+".dlq", 2)) == 1 {
+		// a custom nack window whose threshold is chosen independently of the variant
+		size, th := 4, 1+verifConcrete(verifChoice(tag+".dlqth", 2))
+		cfg.DLQ = config.DLQ{Plugin: "builtin:log", Settings: map[string]string{"level": "warn"}, WindowSize: &size, WindowNackThreshold: &th}
+	}
+	if verifConcrete(verifChoice(tag+".twoConns", verifParam("connShapes", 2))) == 1 {
 		cfg.Connectors = append(cfg.Connectors, config.Connector{ID: "c2", Type: config.TypeDestination, Plugin: "builtin:log", Name: "c2", Settings: map[string]string{}})
 	}
-	switch verifConcrete(verifChoice(tag+".plprocs", 3)) {
+	switch verifConcrete(verifChoice(tag+".plprocs", verifParam("plShapes", 3))) {
 	case 1:
 		cfg.Processors = []config.Processor{pProc("x", v)}
 	case 2:
 		cfg.Processors = []config.Processor{pProc("y", 0), pProc("x", v)}
 	}
+	return config.Enrich(cfg)
+}
+
+// pFixed returns one of three fixed configurations of the pipeline (no choices).
+func pFixed(kind int) config.Pipeline {
+	cfg := config.Pipeline{ID: "pl", Status: config.StatusStopped, Name: "name0", Description: "d0"}
+	c1 := config.Connector{ID: "c1", Type: config.TypeSource, Plugin: "builtin:gen", Name: "c1", Settings: map[string]string{"k": "v0"}}
+	switch kind {
+	case 1: // a connector setting and the description change
+		c1.Settings["k"] = "v1"
+		cfg.Description = "d1"
+	case 2: // a pipeline processor is added
+		cfg.Processors = []config.Processor{pProc("x", 0)}
+	}
+	cfg.Connectors = []config.Connector{c1}
 	return config.Enrich(cfg)
 }
 
@@ -327,6 +351,25 @@ func pRender(c config.Pipeline) string {
 		sb.WriteString(" conn[" + cn.ID + " " + cn.Type + " " + cn.Plugin + " " + cn.Name + " k=" + cn.Settings["k"] + " procs=" + pRenderProcs(cn.Processors) + "]")
 	}
 	sb.WriteString(" procs=" + pRenderProcs(c.Processors))
+	return sb.String()
+}
+
+func pRenderDLQ(c config.Pipeline) string {
+	s := c.DLQ.Plugin + "|" + c.DLQ.Settings["level"]
+	if c.DLQ.WindowSize != nil {
+		s += "|" + strconv.Itoa(*c.DLQ.WindowSize)
+	}
+	if c.DLQ.WindowNackThreshold != nil {
+		s += "|" + strconv.Itoa(*c.DLQ.WindowNackThreshold)
+	}
+	return s
+}
+
+func pRenderConns(c config.Pipeline) string {
+	var sb strings.Builder
+	for _, cn := range c.Connectors {
+		sb.WriteString("[" + cn.ID + " " + cn.Type + " " + cn.Plugin + " " + cn.Name + " k=" + cn.Settings["k"] + "]")
+	}
 	return sb.String()
 }
 
